@@ -291,6 +291,11 @@ class SMCSampler(MCMCSampler):
                 self.adaptive_min_step = True
         else:
             self.adaptive_min_step = False
+        if resumed and self.adaptive_min_step:
+            # Continue with the rescaled minimum step of the interrupted run
+            restored_min_step = getattr(self, "_restored_min_step", None)
+            if restored_min_step is not None:
+                min_step = restored_min_step
 
         iterations = iterations or 0
         if checkpoint_callback is None and checkpoint_every is not None:
@@ -317,6 +322,7 @@ class SMCSampler(MCMCSampler):
             if not should_checkpoint:
                 return
             state = self.build_checkpoint_state(samples, iterations, beta)
+            state["meta"]["min_step"] = min_step
             checkpoint_callback(state)
 
         if run_smc_loop:
@@ -446,6 +452,9 @@ class SMCSampler(MCMCSampler):
             beta = meta.get("beta", None)
         if beta is None:
             beta = state.get("beta", 0.0)
+        self._restored_min_step = (
+            meta.get("min_step") if isinstance(meta, dict) else None
+        )
         iteration = state.get("iteration", 0)
         self.history = state.get("history", SMCHistory())
         rng_state = state.get("rng_state")
